@@ -149,6 +149,9 @@ def run(ctx):
     stream_parsers_reach_end_of_input(ctx, "R01-q", tab)
     sibling_switches_separate_the_same_variants(ctx, "R01-r", tab)
     path_name_tests_look_at_generic_arguments(ctx, "R01-t", tab)
+    loop_bodies_keep_their_inner_attributes(ctx, "R01-u", tab)
+    import c03
+    c03.doc_openers_are_recognised_as_the_lexer_does(ctx, "R01-v")     # shared with C03: a plain comment rewritten as `///` adds a doc comment
     import c10
     c10.visibility_tables(ctx, "R01-s")      # shared with C10: a visibility that compares equal to a different one is rewritten into it
     C = r.rule("R01-c", "no defaulted sub-rewrite: a RewriteResult / Option<String> returned by a Rewrite method is never turned into "
@@ -820,6 +823,65 @@ def path_name_tests_look_at_generic_arguments(ctx, rid, tab):
                         "the path comes out of %s, whose segments may carry `::<..>`: `S { f: f::<u32> }` is handled as "
                         "`S { f: f }`" % ", ".join(sorted(set(capable)))[:120], [loc])
     r.floor(rid, readers, 10, "function families that read PathSegment::ident")
+
+
+def loop_bodies_keep_their_inner_attributes(ctx, rid, tab):
+    """R01-u: the inner attributes of a loop body live on the loop expression; whoever prints the body is given them"""
+    p, r = ctx.p, ctx.r
+    r.rule(rid, "`loop { #![allow(unused)] .. }`, `while c { #![a] .. }`, `for x in y { #![a] .. }`: the parser stores the inner "
+                "attributes of the body on the loop *expression* (Expr::attrs), not in the block. (1) Every function that takes "
+                "the body out of ExprKind::Loop / While / ForLoop reads Expr::attrs. (2) The block printers take the attributes "
+                "as `attrs: Option<&[Attribute]>` next to the block; at every call of expr::rewrite_block_with_visitor, "
+                "rewrite_block or rewrite_block_inner the operand is the constant `None` only in the functions listed in "
+                "tables/C01.toml [[block_without_attributes]] (callers that hold a bare block whose inner attributes the "
+                "grammar does not permit). A printer of loop bodies that passes `None` prints `loop { let x = 1; }` for "
+                "`loop { #![allow(unused)] let x = 1; }`")
+    allowed = {e["fn"]: e["reason"] for e in tab.get("block_without_attributes", [])}
+    n1 = 0
+    for f in p.by_crate["rustfmt_nightly"]:
+        fa = list(f.field_accesses())
+        body = [(v, str(fl)) for (a, v, fl, m, bb, ln) in fa if a and a.endswith("ast::ExprKind") and
+                ((v in ("Loop", "While") and str(fl) in ("0", "1")) or (v == "ForLoop" and str(fl) == "body"))]
+        if not any((v == "Loop" and fl == "0") or (v == "While" and fl == "1") or v == "ForLoop" for v, fl in body):
+            continue
+        n1 += 1
+        fam = [g for g in p.by_crate["rustfmt_nightly"] if (g.root or g.id) == (f.root or f.id)]
+        ok = any(a and a.endswith("rustc_ast::Expr") and str(fl) == "attrs" for g in fam for (a, v, fl, m, bb, ln) in g.field_accesses())
+        r.instance(rid, "%s takes a loop body out of its expression" % short(f.id), "ok" if ok else "violation",
+                   "%s:%d" % (f.file, f.line), "reads Expr::attrs: %s" % ok)
+        if not ok:
+            r.violation(rid, "%s takes the body out of a loop expression and never reads the expression's attributes" % short(f.id),
+                        "the inner attributes of the body (`loop { #![allow(unused)] .. }`) are on the expression; the body "
+                        "is printed without them", ["%s:%d" % (f.file, f.line)])
+    n2 = 0
+    for c in p.all_calls():
+        if c.fn.crate != "rustfmt_nightly" or not re.search(r"expr::(rewrite_block_with_visitor|rewrite_block|rewrite_block_inner)$", c.name):
+            continue
+        g = p.fns.get(c.name)
+        idx = [i for i in range(1, (g.argc if g else 0) + 1) if "Option<&[rustc_ast::Attribute]>" in g.locals[i].replace("'_ ", "")] if g else []
+        if not idx or idx[0] - 1 >= len(c.args):
+            r.undecidable(rid, "%s: attrs parameter of %s not found" % (short(c.fn.id), short(c.name)))
+            continue
+        n2 += 1
+        a = c.args[idx[0] - 1]
+        none = False
+        if a[0] != "k":
+            defs = c.fn.defs().get(a[1][0], [])
+            none = bool(defs) and all(kind == "assign" and not isinstance(st, Call) and st[2][0] == "agg" and st[2][1][0] == "adt"
+                                      and st[2][1][2] == "None" for (bb, kind, st) in defs)
+        owner = c.fn.root or c.fn.id
+        key = "%s → %s" % (short(owner), short(c.name))
+        if not none:
+            r.instance(rid, key, "ok", c.loc(), "attributes handed on")
+        elif owner in allowed or short(owner) in allowed:
+            r.instance(rid, key, "exception", c.loc(), allowed.get(owner) or allowed.get(short(owner)), nontrivial=False)
+        else:
+            r.instance(rid, key, "violation", c.loc(), "attrs = None")
+            r.violation(rid, "%s prints a block with `attrs = None`" % short(owner),
+                        "%s hands `None` to %s: if the block is the body of a loop, its inner attributes "
+                        "(`loop { #![allow(unused)] .. }`) are dropped from the output" % (short(owner), short(c.name)), [c.loc()])
+    r.floor(rid, n1, 1, "functions that take a loop body out of ExprKind::Loop / While / ForLoop")
+    r.floor(rid, n2, 4, "calls of the block printers")
 
 
 _TOKEN_FORMATTERS = ("format_visibility", "format_safety", "format_mutability", "format_defaultness", "format_constness",
